@@ -6,16 +6,17 @@
  * undecided after 600 s) -- become uninterpreted functions constrained by the following facts of IEEE-754
  * binary64 arithmetic in round-to-nearest (the only mode pomerol runs in).
  *
- * ASSUMED for r = a*b with a, b finite (not NaN, not +-inf):
+ * ASSUMED for r = a*b with a, b not NaN and not 0*inf (infinite operands are allowed here: E - E0 may overflow):
  *   M1  r is not NaN                                     (NaN arises only from 0*inf or a NaN operand)
- *   M2  sign rule: equal signs ==> r >= 0, opposite signs ==> r <= 0   (+-0 counts for both; r may be +-inf by overflow)
+ *   M2  sign rule: equal signs ==> r >= 0, opposite signs ==> r <= 0   (+-0 counts for both; r may be +-inf)
+ * ASSUMED for r = a*b with a, b finite:
  *   M3  |b| <= 1 ==> |r| <= |a|     (the exact product is <= |a|, |a| is representable, rounding is monotone; only for the
  *       SECOND factor -- write the small factor on the right; the mirrored fact is not needed and not assumed)
  * ASSUMED for r = a/b with a, b finite and b != 0:
  *   D1  r is not NaN
  *   D2  sign rule as for the product
  *   D3  |b| >= 1 ==> |r| <= |a|                           (same argument as M3)
- * Nothing is assumed when an operand is NaN or infinite, or for a division by zero.
+ * Nothing is assumed when an operand is NaN, for 0*inf, for a quotient with an infinite operand, or for a division by zero.
  * Every one of these facts is PROVED against CBMC's bit-precise '*' and '/' by a lemma harness in specs/gfterm.c
  * (h_lemma_fmul_sign, h_lemma_fdiv_sign: < 1 s;  h_lemma_fmul_mag, h_lemma_fdiv_mag: about 3 min each),
  * so a harness built with -DVERIF_FP_AXIOM relies on CBMC's float model only, in two steps (lemma + use).
@@ -35,9 +36,11 @@ double __CPROVER_uninterpreted_fmul(double, double);
 double __CPROVER_uninterpreted_fdiv(double, double);
 static inline double fa_abs(double x) { return x < 0.0 ? -x : x; }
 /* the facts, as predicates of (a, b, r): used by the assumptions below and by the lemma harnesses */
+static inline _Bool fa_isinf(double x) { return x == x && x - x != 0.0; }
 static inline _Bool fa_mul_sign_ok(double a, double b, double r)
 {
-  if (!(d_finite(a) && d_finite(b))) return 1;
+  /* defined product: no NaN operand and not 0 * inf */
+  if (!(a == a && b == b) || (a == 0.0 && fa_isinf(b)) || (fa_isinf(a) && b == 0.0)) return 1;
   return r == r                                                                     /* M1 */
       && (!((a >= 0.0 && b >= 0.0) || (a <= 0.0 && b <= 0.0)) || r >= 0.0)         /* M2 */
       && (!((a >= 0.0 && b <= 0.0) || (a <= 0.0 && b >= 0.0)) || r <= 0.0);
